@@ -368,7 +368,7 @@ impl Consumer {
                             if fetch_state.max_bytes < self.config.retry_max_bytes_limit {
                                 // ~ try to double the max_bytes
                                 let prev_max_bytes = fetch_state.max_bytes;
-                                let incr_max_bytes = prev_max_bytes + prev_max_bytes;
+                                let incr_max_bytes = prev_max_bytes.saturating_add(prev_max_bytes);
                                 if incr_max_bytes > self.config.retry_max_bytes_limit {
                                     fetch_state.max_bytes = self.config.retry_max_bytes_limit;
                                 } else {
